@@ -73,15 +73,19 @@ Qed.
 Print Assumptions C02_field_position.
 
 (* a real row: PID-1 (SI) of v2.5 *)
+Definition pid_rows25 : list srow :=
+  match slookup "PID" (t_segments Gen.Tables_v2_5.tables) with Some (SSeqIn _ rows _) => rows | _ => [] end.
+Definition pid1_inf : info :=
+  match row_ref Gen.Tables_v2_5.tables (nth 0 pid_rows25 SRowBad) with Some (SLeaf i) => i | _ => mk_info None None None 0 end.
 Example C02_field_position_example :
   let t := Gen.Tables_v2_5.tables in
-  exists srows row inf,
-    slookup "PID" (t_segments t) = Some (SSeqIn false srows None) /\
-    nth_error srows (pred 1) = Some row /\ row_ref t row = Some (SLeaf inf) /\
-    i_dt inf = Some (unbs "SI") /\ base t (Some (unbs "SI")) = true /\
+    slookup "PID" (t_segments t) = Some (SSeqIn false pid_rows25 None) /\
+    nth_error pid_rows25 (pred 1) = Some (nth 0 pid_rows25 SRowBad) /\
+    row_ref t (nth 0 pid_rows25 SRowBad) = Some (SLeaf pid1_inf) /\
+    i_dt pid1_inf = Some (unbs "SI") /\ base t (Some (unbs "SI")) = true /\
     leaf_enc "2.5" TOLERANT default_ec (Some (unbs "SI")) "12" = Ok (unbs "12") /\
     is_blank "12" = false /\ delim_free default_ec "12".
-Proof. vm_compute. do 3 eexists. repeat split; reflexivity. Qed.
+Proof. repeat split; vm_compute; reflexivity. Qed.
 
 (* ... and every field position whose row is a leaf of type varies (OBX-5, RDT-1, QPD-3 ...): the
    value is stored as the ST subcomponent of the component VARIES_1 *)
@@ -109,6 +113,47 @@ Proof.
            H3 Hup Hmsh Hz Hl Hc Hrows Hi Hn Hr Hdt Hx Hd Hlf).
 Qed.
 Print Assumptions C02_field_position_varies.
+
+(* ... and every field position whose row has NO datatype (the reserved positions of v2.5.1:
+   MSA-5, OBX-20, OBX-21, OBX-22): parsed like varies, the field's datatype stays None.  Together
+   with C02_field_position (base-typed leaves), C02_field_position_varies and the struct-typed
+   positions below, every kind of field row that Model/Wf.v admits is covered. *)
+Theorem C02_field_position_untyped : forall v t, tables_of v = Some t ->
+  forall e, ec_ok e ->
+  forall sn r, In (sn, r) (t_segments t) -> sn <> unbs "ANYHL7SEGMENT" -> sn <> unbs "MSH" ->
+  exists srows, r = SSeqIn false srows None /\
+  forall i row inf x,
+    1 <= i -> nth_error srows (pred i) = Some row ->
+    row_ref t row = Some (SLeaf inf) -> i_dt inf = None ->
+    is_blank x = false -> delim_free e x -> st_fixed v e x ->
+    let text := sn ++ repeat (fsep e) i ++ x in
+    exists s f c sb,
+      parse_segment t TOLERANT e (leaf_enc v TOLERANT e) text None = Ok s /\
+      s_children s = [f] /\ f_name f = Some (name_idx sn i) /\ f_dt f = None /\
+      f_children f = [c] /\ c_name c = Some (name_idx VARIES 1) /\
+      c_children c = [sb] /\ sc_value sb = x /\
+      enc_segment t e s false = Ok text.
+Proof.
+  intros v t Ht e He sn r Hin Ha Hm.
+  destruct (shipped_table_facts v t Ht) as [Hst [Hvar _]].
+  destruct (shipped_segment_ok v t sn r Ht Hin Ha Hm) as [Hl [srows [-> [H3 [Hup [Hmsh [Hz [Hc [Hrows Hnof]]]]]]]]].
+  exists srows. split; [reflexivity|]. intros i row inf x Hi Hn Hr Hdt Hx Hd Hlf.
+  exact (field_position_untyped t e (leaf_enc v TOLERANT e) He Hst Hvar sn srows i row inf x
+           H3 Hup Hmsh Hz Hl Hc Hrows Hi Hn Hr Hdt Hx Hd Hlf).
+Qed.
+Print Assumptions C02_field_position_untyped.
+
+(* OBX-20 of v2.5.1 is such a position *)
+Definition obx_rows : list srow :=
+  match slookup "OBX" (t_segments Gen.Tables_v2_5_1.tables) with Some (SSeqIn _ rows _) => rows | _ => [] end.
+Definition obx20_inf : info :=
+  match row_ref Gen.Tables_v2_5_1.tables (nth 19 obx_rows SRowBad) with Some (SLeaf i) => i | _ => mk_info (Some []) None None 0 end.
+Example C02_field_position_untyped_example :
+  let t := Gen.Tables_v2_5_1.tables in
+  slookup "OBX" (t_segments t) = Some (SSeqIn false obx_rows None) /\
+  nth_error obx_rows (pred 20) = Some (nth 19 obx_rows SRowBad) /\
+  row_ref t (nth 19 obx_rows SRowBad) = Some (SLeaf obx20_inf) /\ i_dt obx20_inf = None.
+Proof. repeat split; vm_compute; reflexivity. Qed.
 
 (* Segments whose last defined field is of type varies (RDT, QPD) accept ANY index beyond it (no
    bound): the value after exactly i field separators parses to the single child <SEG>_i, of type
